@@ -62,3 +62,9 @@ def run(chk):
                 or ptreplay.battery_scalarmult(chk.seed))
     L1m.settle(chk, internal, internal_battery, "point formulas (internal)")
     chk.samples = [o.j() for o in chk.obs if "x-coordinate" in o.name][:4]
+
+
+def safety_net(chk):
+    from sym import ptreplay, ref
+    return (ptreplay.battery_binary("P.Add", chk.seed, lambda p, q: ref.ed_add(p, q)) or ptreplay.battery_binary("P.Subtract", chk.seed, lambda p, q: ref.ed_add(p, ref.ed_neg(q)))
+            or ptreplay.battery_unary("P.Negate", chk.seed, lambda p: ref.ed_neg(p)) or ptreplay.battery_unary("P.MultByCofactor", chk.seed, lambda p: ref.ed_mul(8, p)))
